@@ -81,8 +81,7 @@ func checkC09(prop, tier string, seed int64) int {
 	for i := 0; i < nWP; i++ {
 		g := NewGen(seed*999983+int64(i)*13+3, flattenGenOpts(i))
 		b := g.GenBundle()
-		info := g.MutateWPlus(b)
-		breakPureRefCycles(b)
+		info := g.MutateWPlus(b) // (GenBundle already removed accidental pure-$ref cycles; the mutator may plant one on purpose)
 		c := &Case{Tid: fmt.Sprintf("w%d", i), Source: "gen", Seed: seed*999983 + int64(i)*13 + 3, Bundle: b, Names: g.Names.ToConcrete, Note: strings.Join(info.Kinds, "+")}
 		if err := c.Materialize(filepath.Join(scratch, "cases", c.Tid)); err != nil {
 			rep.HarnessErr = append(rep.HarnessErr, err.Error())
